@@ -21,21 +21,23 @@ func init() {
 			"N-continue — the enumerate handler passes the request's 'after' and a limit clamped by the storage's maximum to EnumerateBlobs, emits continueAfter only when non-empty, derives it from the last emitted ref, clears it on the short-page edge (count < limit), and on an enumeration error never reaches the writes that terminate a well-formed response; " +
 			"N-client-page — the client's enumerate loop continues exactly on the presence of continueAfter, feeds its value into the next request's after= parameter, and what it sends on the channel is parsed from the blobRef/size members; " +
 			"N-keys — writer/reader agreement by constant values: query keys the client writes are keys the enumerate/stat/remove handlers read, JSON members the client reads are members the enumerate handler writes, numbered blobN keys use the same prefix and the same first index on both sides, stat and remove responses are encoded and decoded through the same struct types; " +
+			"N-compat — the client never builds a request the handler is bound to reject: for every handler function routed by serverinit.camliHandlerUsingStorage (enumerate-blobs, stat, upload, remove, get) the minimal conjunctions of request-key atoms (FormValue/PostFormValue/Query().Get value empty / non-empty, its strconv-parsed integer != 0 / > 0) under which every path from entry ends in an error response (status >= 400) are extracted (today: enumerate after!=\"\" && int(maxwaitsec)!=0; stat camliversion==\"\"); for every request pkg/client builds for the same /camli/<action> URL (URL and body text modelled as format calls, literals, concatenations, bytes.Buffer writes, url.Values) some atom can never hold, or two atoms exclude each other on every pair of values the two keys may carry, by a guard about the very value emitted for the other key that is evaluated for the iteration being formatted (no loop-carried phi at or above that value's definition between the guard and the request); " +
 			"N-stat — the stat handler records a requested ref only when it parsed and the per-request count is within the limit, answers 200/JSON only when no StatBlobs call failed, and records results only from the callback's own argument; " +
 			"N-get — ServeBlobRef reaches http.ServeContent only on the err==nil edge of Fetch, serves content derived from that fetch's reader with that fetch's size, and closes the reader on every path. " +
-			"NOT decided: that a concrete client/server exchange over any configuration returns the reference map's answer; pagination completeness for concrete histories; batch-size limits at run time; the multipart/PUT upload handlers (claimed under C02 R-http) and authentication (C17); HTTP framing done by net/http.",
+			"NOT decided: that a concrete client/server exchange over any configuration returns the reference map's answer; pagination completeness for concrete histories; batch-size limits at run time (the numeric rejections 'too many blobN', 'blob too big', malformed refs are outside N-compat: only rejections decided by key presence/emptiness/zero-ness alone are compared; header- and method-based rejections are not modelled); protocol clients outside pkg/client; the multipart/PUT upload handlers (claimed under C02 R-http) and authentication (C17); HTTP framing done by net/http.",
 		RuleDocs: map[string]string{
 			"N-longpoll":    "symbolic guard evaluation over the CFG of each caller of blobserver.WaitForBlob in pkg/blobserver/handlers: reachability of the query / the wait under {wait!=0, now<deadline}; no query->query cycle under {wait!=0, now>deadline}",
 			"N-continue":    "value dependence + dominance in handlers.handleEnumerateBlobs (after/limit arguments, continueAfter emission, short-page reset, error exit before terminator)",
 			"N-client-page": "value dependence in client.(*Client).EnumerateBlobsOpts (continueAfter -> loop guard and next after=; sends derive from blobRef/size)",
+			"N-compat":      "per routed handler: minimal sets of request-key atoms (empty/non-empty, parsed int zero/non-zero/positive) that force an error response on every path (symbolic guard evaluation on the handler CFG); per pkg/client request for the same action: request-text model (format calls, literals, +, bytes.Buffer writes, url.Values), per key the values it may carry traced through phis with the guards of each edge; rule: some atom unsatisfiable, or two atoms mutually exclusive on all value pairs by a same-iteration guard on the other key's emitted value",
 			"N-keys":        "table agreement by go/constant values between pkg/client request builders / response readers and the handlers' FormValue keys / written members; numbered key base; shared response struct types",
 			"N-stat":        "dominance/reachability in handlers.handleStat (reject-before-record, error exit before ReturnJSON, callback appends its own argument)",
 			"N-get":         "dominance + value dependence + pairing in gethandler.ServeBlobRef",
 		},
 		Run:       runC18,
 		DesignRef: "DESIGN.md §4 C18",
-		Technique: "static analysis: symbolic guard evaluation on the CFG (long-poll polarity), value-dependence and dominance rules on the handlers and the client, table agreement of protocol keys by constant values",
-		LevelText: "Decides structural necessary conditions of the wire protocol only: long-poll loops query before the deadline and stop after it; the enumerate continuation is produced from the last emitted ref exactly on full pages and consumed by the client's loop; protocol keys and numbered-key bases agree between client and handlers; stat/get handlers answer success only on the success edge of the storage call. Does not decide end-to-end map semantics for any concrete history or configuration.",
+		Technique: "static analysis: symbolic guard evaluation on the CFG (long-poll polarity; key-only rejection conjunctions of the handlers), value-dependence and dominance rules on the handlers and the client, guarded value tracing through phis with an incarnation (loop-iteration) check for client request parameters, table agreement of protocol keys by constant values",
+		LevelText: "Decides structural necessary conditions of the wire protocol only: long-poll loops query before the deadline and stop after it; the enumerate continuation is produced from the last emitted ref exactly on full pages and consumed by the client's loop; protocol keys and numbered-key bases agree between client and handlers; no pkg/client request builder can emit a combination of parameters (per loop iteration) that a routed handler rejects on key presence/emptiness/zero-ness alone; stat/get handlers answer success only on the success edge of the storage call. Does not decide end-to-end map semantics for any concrete history or configuration.",
 	})
 }
 
@@ -44,6 +46,7 @@ func runC18(p *Program, r *Reporter) {
 	c18Continue(p, r)
 	c18ClientPage(p, r)
 	c18Keys(p, r)
+	c18Compat(p, r)
 	c18Stat(p, r)
 	c18Get(p, r)
 }
@@ -814,9 +817,9 @@ func c18Keys(p *Program, r *Reporter) {
 		return
 	}
 	// client-side keys: from constant format strings containing key=...; numbered keys with the first value of their argument
-	clientKeys := func(fn *ssa.Function, only func(string) bool) (plain map[string]bool, numbered map[string]int64) {
+	clientKeys := func(fcs []c18Fmt) (plain map[string]bool, numbered map[string]int64) {
 		plain, numbered = map[string]bool{}, map[string]int64{}
-		for _, fc := range c18FormatCalls(fn, func(f string) bool { return only == nil || only(f) }) {
+		for _, fc := range fcs {
 			q := fc.Format
 			if i := strings.Index(q, "?"); i >= 0 {
 				q = q[i:]
@@ -884,7 +887,26 @@ func c18Keys(p *Program, r *Reporter) {
 		}
 	}
 	sp, sn := serverKeys(hEnum)
-	cp, cn := clientKeys(cEnum, func(f string) bool { return strings.Contains(f, "enumerate-blobs") })
+	// every text fragment that flows into the URL or the body of the requests fn
+	// builds for the action (format calls, literals, buffer writes, url.Values
+	// entries - see the request model of N-compat)
+	modelFmts := func(fn *ssa.Function, action string) []c18Fmt {
+		var out []c18Fmt
+		for _, rq := range c18Requests(fn) {
+			if rq.Action != action {
+				continue
+			}
+			seenAt := map[ssa.Instruction]bool{}
+			for _, f := range rq.Frags {
+				if !seenAt[f.At] || f.Literal {
+					seenAt[f.At] = true
+					out = append(out, c18Fmt{Format: f.Text, Args: f.Args})
+				}
+			}
+		}
+		return out
+	}
+	cp, cn := clientKeys(modelFmts(cEnum, "enumerate-blobs"))
 	cmp("enumerate", FuncKey(cEnum), cp, cn, sp, sn, p.Pos(cEnum.Pos()), 3, 0)
 	// JSON members read by the client vs text written by the handler
 	written := strings.Join(c18ConstStrings(hEnum, true), "\x00")
@@ -917,13 +939,13 @@ func c18Keys(p *Program, r *Reporter) {
 	hStat := p.Func("pkg/blobserver/handlers", "", "handleStat")
 	cStat := p.Func("pkg/client", "Client", "doStat")
 	sp, sn = serverKeys(hStat)
-	cp, cn = clientKeys(cStat, func(f string) bool { return strings.Contains(f, "=") })
+	cp, cn = clientKeys(modelFmts(cStat, "stat"))
 	cmp("stat", FuncKey(cStat), cp, cn, sp, sn, p.Pos(cStat.Pos()), 2, 1)
 	// --- remove
 	hRem := p.Func("pkg/blobserver/handlers", "", "handleRemove")
 	cRem := p.Func("pkg/client", "Client", "RemoveBlobs")
 	sp, sn = serverKeys(hRem)
-	cp, cn = clientKeys(cRem, func(f string) bool { return regexp.MustCompile(`^[A-Za-z]+%[dv]$`).MatchString(f) })
+	cp, cn = clientKeys(modelFmts(cRem, "remove"))
 	cmp("remove", FuncKey(cRem), cp, cn, sp, sn, p.Pos(cRem.Pos()), 0, 1)
 	// --- response struct types shared
 	statResp := p.NamedType("pkg/blobserver/protocol", "StatResponse")
@@ -1150,4 +1172,1307 @@ func c18Get(p *Program, r *Reporter) {
 func mustErr(c *ssa.Call) ssa.Value {
 	ev, _, _ := ErrValue(c)
 	return ev
+}
+
+// ---------------------------------------------------------------------------
+// N-compat: the client never builds a request the handler is bound to reject
+//
+// Server side: for every handler function routed by
+// serverinit.camliHandlerUsingStorage, every error response whose dominating
+// branch conditions contain atoms over request keys yields a candidate
+// conjunction of key atoms; it is kept when, with exactly these atoms assumed
+// (everything else unknown), no path from entry reaches a return without
+// passing an error response (the conjunction alone is sufficient to be
+// rejected).
+// Client side: for every request built in pkg/client for the same action, the
+// request text (URL + body) is modelled as fragments (format calls, literals,
+// buffer writes, url.Values) with the facts under which each fragment is part
+// of the request; for every atom the values that may satisfy it are traced to
+// their leaves together with the facts guarding each leaf.
+// Obligation: some atom can never hold, or two atoms exclude each other on
+// every pair of leaves by a fact about the very SSA value emitted for the other
+// key — with no phi at or above that value's defining block crossed between the
+// fact and the request (the fact holds for the iteration that is formatted).
+
+// atom kinds, ordered by implication: kind k holds => every lower kind holds.
+const (
+	c18NonEmpty   = 0 // the key's value is not ""
+	c18IntNonZero = 1 // the key's value parses to an integer != 0
+	c18IntPos     = 2 // the key's value parses to an integer > 0
+)
+
+type c18Atom struct {
+	Key  string
+	Kind int
+	Pos  bool
+}
+
+func (a c18Atom) String() string {
+	switch a.Kind {
+	case c18NonEmpty:
+		if a.Pos {
+			return a.Key + `!=""`
+		}
+		return a.Key + `==""`
+	case c18IntNonZero:
+		if a.Pos {
+			return "int(" + a.Key + ")!=0"
+		}
+		return "int(" + a.Key + ")==0"
+	default:
+		if a.Pos {
+			return "int(" + a.Key + ")>0"
+		}
+		return "int(" + a.Key + ")<=0"
+	}
+}
+
+func c18AtomsString(as []c18Atom) string {
+	var s []string
+	for _, a := range as {
+		s = append(s, a.String())
+	}
+	return strings.Join(s, " && ")
+}
+
+// c18ReqKeyOf: v is the value of request key K (FormValue/PostFormValue, or
+// Get on req.URL.Query() / req.Form).
+func c18ReqKeyOf(v ssa.Value) (string, bool) {
+	cl, ok := originValue(v).(*ssa.Call)
+	if !ok {
+		return "", false
+	}
+	cs := CallSite{cl.Parent(), cl}
+	switch {
+	case cs.IsStatic("net/http", "Request", "FormValue"), cs.IsStatic("net/http", "Request", "PostFormValue"):
+		return ConstString(cl.Call.Args[1])
+	case cs.IsStatic("net/url", "Values", "Get"):
+		fromReq := DependsOn(cl.Call.Args[0], func(x ssa.Value) bool {
+			if c2, ok := x.(*ssa.Call); ok && (CallSite{c2.Parent(), c2}).IsStatic("net/url", "URL", "Query") {
+				return true
+			}
+			if fa, ok := x.(*ssa.FieldAddr); ok {
+				if pt, ok := fa.X.Type().Underlying().(*types.Pointer); ok && IsNamed(pt.Elem(), "net/http", "Request") {
+					n := fieldName(pt.Elem(), fa.Field)
+					return n == "Form" || n == "PostForm"
+				}
+			}
+			return false
+		})
+		if fromReq {
+			return ConstString(cl.Call.Args[1])
+		}
+	}
+	return "", false
+}
+
+// c18ReqIntKeyOf: v is the integer parsed from the value of request key K.
+func c18ReqIntKeyOf(v ssa.Value) (string, bool) {
+	for i := 0; i < 4; i++ {
+		o := originValue(v)
+		if cv, ok := o.(*ssa.Convert); ok {
+			v = cv.X
+			continue
+		}
+		ex, ok := o.(*ssa.Extract)
+		if !ok || ex.Index != 0 {
+			return "", false
+		}
+		cl, ok := ex.Tuple.(*ssa.Call)
+		if !ok {
+			return "", false
+		}
+		cs := CallSite{cl.Parent(), cl}
+		if cs.IsStatic("strconv", "", "Atoi") || cs.IsStatic("strconv", "", "ParseInt") || cs.IsStatic("strconv", "", "ParseUint") {
+			return c18ReqKeyOf(cl.Call.Args[0])
+		}
+		return "", false
+	}
+	return "", false
+}
+
+// c18CmpZero normalises a comparison of some value with the constants "" / 0 /
+// 1 into (value, kind, pos): "cond == val" means atom(kind) on value has
+// polarity pos. isStr tells which constant family matched.
+func c18CmpZero(cond ssa.Value, val bool) (x ssa.Value, kind int, pos, isStr, ok bool) {
+	for {
+		u, isNot := cond.(*ssa.UnOp)
+		if !isNot || u.Op != token.NOT {
+			break
+		}
+		cond, val = u.X, !val
+	}
+	bo, isBin := cond.(*ssa.BinOp)
+	if !isBin {
+		return nil, 0, false, false, false
+	}
+	op, lhs, rhs := bo.Op, bo.X, bo.Y
+	if _, lc := lhs.(*ssa.Const); lc {
+		lhs, rhs = rhs, lhs
+		switch op {
+		case token.LSS:
+			op = token.GTR
+		case token.GTR:
+			op = token.LSS
+		case token.LEQ:
+			op = token.GEQ
+		case token.GEQ:
+			op = token.LEQ
+		}
+	}
+	if s, isS := ConstString(rhs); isS {
+		if s != "" {
+			return nil, 0, false, false, false
+		}
+		switch op {
+		case token.EQL:
+			return lhs, c18NonEmpty, !val, true, true
+		case token.NEQ:
+			return lhs, c18NonEmpty, val, true, true
+		}
+		return nil, 0, false, false, false
+	}
+	c, isI := ConstInt(rhs)
+	if !isI {
+		return nil, 0, false, false, false
+	}
+	// len(s) compared with 0/1 is a statement about s's emptiness
+	if cl, isCall := lhs.(*ssa.Call); isCall {
+		if b, isB := cl.Call.Value.(*ssa.Builtin); isB && b.Name() == "len" && len(cl.Call.Args) == 1 {
+			if bt, isBasic := cl.Call.Args[0].Type().Underlying().(*types.Basic); isBasic && bt.Info()&types.IsString != 0 {
+				switch {
+				case c == 0 && op == token.EQL, c == 0 && op == token.LEQ, c == 1 && op == token.LSS:
+					return cl.Call.Args[0], c18NonEmpty, !val, true, true
+				case c == 0 && op == token.NEQ, c == 0 && op == token.GTR, c == 1 && op == token.GEQ:
+					return cl.Call.Args[0], c18NonEmpty, val, true, true
+				}
+				return nil, 0, false, false, false
+			}
+		}
+	}
+	switch {
+	case c == 0 && op == token.EQL:
+		return lhs, c18IntNonZero, !val, false, true
+	case c == 0 && op == token.NEQ:
+		return lhs, c18IntNonZero, val, false, true
+	case c == 0 && op == token.GTR, c == 1 && op == token.GEQ:
+		return lhs, c18IntPos, val, false, true
+	case c == 0 && op == token.LEQ, c == 1 && op == token.LSS:
+		return lhs, c18IntPos, !val, false, true
+	}
+	return nil, 0, false, false, false
+}
+
+// c18ServerAtom interprets a handler branch condition as an atom over a request key.
+func c18ServerAtom(cond ssa.Value, val bool) (c18Atom, bool) {
+	x, kind, pos, isStr, ok := c18CmpZero(cond, val)
+	if !ok {
+		return c18Atom{}, false
+	}
+	if isStr {
+		if k, ok := c18ReqKeyOf(x); ok {
+			return c18Atom{k, kind, pos}, true
+		}
+		return c18Atom{}, false
+	}
+	if k, ok := c18ReqIntKeyOf(x); ok {
+		return c18Atom{k, kind, pos}, true
+	}
+	return c18Atom{}, false
+}
+
+// c18EvalAtom: truth of the positive atom (key, kind) when conj is assumed.
+func c18EvalAtom(conj []c18Atom, key string, kind int) (known, val bool) {
+	for _, c := range conj {
+		if c.Key != key {
+			continue
+		}
+		if c.Pos && c.Kind >= kind {
+			return true, true
+		}
+		if !c.Pos && kind >= c.Kind {
+			return true, false
+		}
+	}
+	return false, false
+}
+
+// c18IsReject: the instruction writes an error response (status >= 400).
+func c18IsReject(in ssa.Instruction) bool {
+	cl, ok := in.(*ssa.Call)
+	if !ok {
+		return false
+	}
+	cs := CallSite{cl.Parent(), cl}
+	if f := cs.Callee(); f != nil && f.Pkg != nil {
+		switch f.Pkg.Pkg.Path() {
+		case "perkeep.org/internal/httputil":
+			if f.Name() == "ReturnJSONCode" {
+				c, ok := ConstInt(cl.Call.Args[1])
+				return ok && c >= 400
+			}
+			return strings.HasSuffix(f.Name(), "Error") || f.Name() == "ErrorRouting"
+		case "net/http":
+			if f.Name() == "Error" || f.Name() == "NotFound" {
+				return true
+			}
+		}
+	}
+	if cs.MethodName() == "WriteHeader" {
+		args := cs.Args()
+		if len(args) == 2 {
+			c, ok := ConstInt(args[1])
+			return ok && c >= 400
+		}
+	}
+	return false
+}
+
+type c18Rejection struct {
+	Fn    *ssa.Function
+	Sites []ssa.Instruction // the error responses a request satisfying Atoms ends in
+	Atoms []c18Atom
+}
+
+// c18Rejections extracts the minimal key-only rejection conjunctions of
+// handler fn: the literals are the key atoms (both polarities) that occur in
+// fn's branch conditions; a consistent set of at most three literals is a
+// rejection conjunction when it is bound to be rejected (c18BoundToReject) and
+// no subset is. The definition does not depend on how the handler spells the
+// condition (nested ifs, &&, ||, switch).
+func c18Rejections(fn *ssa.Function) (out []c18Rejection, sites, literals int) {
+	litSet := map[c18Atom]bool{}
+	for _, b := range fn.Blocks {
+		for _, in := range b.Instrs {
+			if c18IsReject(in) {
+				sites++
+			}
+			if ifi, ok := in.(*ssa.If); ok {
+				if a, ok := c18ServerAtom(ifi.Cond, true); ok {
+					litSet[a] = true
+					litSet[c18Atom{a.Key, a.Kind, !a.Pos}] = true
+				}
+			}
+		}
+	}
+	if sites == 0 || len(litSet) == 0 {
+		return nil, sites, 0
+	}
+	var lits []c18Atom
+	for a := range litSet {
+		lits = append(lits, a)
+	}
+	sort.Slice(lits, func(i, j int) bool { return lits[i].String() < lits[j].String() })
+	literals = len(lits)
+	if len(lits) > 24 {
+		lits = lits[:24]
+	}
+	consistent := func(set []c18Atom) bool {
+		for _, a := range set {
+			for _, b := range set {
+				if a.Key != b.Key {
+					continue
+				}
+				if a.Pos && !b.Pos && a.Kind >= b.Kind {
+					return false // a implies the atom b denies
+				}
+				if a != b && a.Pos == b.Pos {
+					return false // one of the two is implied by the other: not minimal
+				}
+			}
+		}
+		return true
+	}
+	var found [][]c18Atom
+	hasSubset := func(set []c18Atom) bool {
+		for _, f := range found {
+			n := 0
+			for _, a := range f {
+				for _, b := range set {
+					if a == b {
+						n++
+					}
+				}
+			}
+			if n == len(f) {
+				return true
+			}
+		}
+		return false
+	}
+	try := func(set []c18Atom) {
+		if !consistent(set) || hasSubset(set) {
+			return
+		}
+		if ok, at := c18BoundToReject(fn, set); ok && len(at) > 0 {
+			cp := append([]c18Atom(nil), set...)
+			found = append(found, cp)
+			out = append(out, c18Rejection{fn, at, cp})
+		}
+	}
+	for i := range lits {
+		try([]c18Atom{lits[i]})
+	}
+	for i := range lits {
+		for j := i + 1; j < len(lits); j++ {
+			try([]c18Atom{lits[i], lits[j]})
+		}
+	}
+	for i := range lits {
+		for j := i + 1; j < len(lits); j++ {
+			for k := j + 1; k < len(lits); k++ {
+				try([]c18Atom{lits[i], lits[j], lits[k]})
+			}
+		}
+	}
+	return
+}
+
+// c18BoundToReject: with conj assumed and every other condition unknown, no
+// path from entry reaches a return before an error response. Returns the error
+// responses such paths end in.
+func c18BoundToReject(fn *ssa.Function, conj []c18Atom) (bool, []ssa.Instruction) {
+	seen := map[*ssa.BasicBlock]bool{}
+	var at []ssa.Instruction
+	var walk func(b *ssa.BasicBlock) bool
+	walk = func(b *ssa.BasicBlock) bool {
+		if seen[b] {
+			return true
+		}
+		seen[b] = true
+		for _, in := range b.Instrs {
+			if c18IsReject(in) {
+				at = append(at, in)
+				return true
+			}
+			switch x := in.(type) {
+			case *ssa.Return:
+				return false
+			case *ssa.If:
+				if a, ok := c18ServerAtom(x.Cond, true); ok {
+					if k, v := c18EvalAtom(conj, a.Key, a.Kind); k {
+						if v == a.Pos {
+							return walk(b.Succs[0])
+						}
+						return walk(b.Succs[1])
+					}
+				}
+			}
+		}
+		for _, s := range b.Succs {
+			if !walk(s) {
+				return false
+			}
+		}
+		return true
+	}
+	if len(fn.Blocks) == 0 || !walk(fn.Blocks[0]) {
+		return false, nil
+	}
+	// name the responses that are guarded by one of conj's keys (the others are
+	// rejections for unrelated reasons met on the way)
+	var own []ssa.Instruction
+	for _, in := range at {
+		for _, f := range FactsAt(in.Block()) {
+			if a, ok := c18ServerAtom(f.Cond, f.Val); ok {
+				for _, c := range conj {
+					if c.Key == a.Key {
+						own = append(own, in)
+					}
+				}
+			}
+		}
+	}
+	if len(own) > 0 {
+		at = own[:1]
+		for _, in := range own[1:] {
+			if in != at[len(at)-1] {
+				at = append(at, in)
+			}
+		}
+	}
+	sort.Slice(at, func(i, j int) bool { return at[i].Pos() < at[j].Pos() })
+	return true, at
+}
+
+// c18Routes reads the action -> handler implementation table out of
+// serverinit.camliHandlerUsingStorage: on the true edge of `action == "<const>"`
+// a pkg/blobserver/handlers constructor is called; the implementations are the
+// functions with a *http.Request parameter in that constructor's literals and
+// their static callees in pkg/blobserver/{handlers,gethandler}.
+func c18Routes(p *Program) map[string][]*ssa.Function {
+	router := p.Func("pkg/serverinit", "", "camliHandlerUsingStorage")
+	var action *ssa.Parameter
+	for _, pa := range router.Params {
+		if bt, ok := pa.Type().Underlying().(*types.Basic); ok && bt.Info()&types.IsString != 0 {
+			action = pa
+		}
+	}
+	if action == nil {
+		brokenf("anchor unresolved: string parameter (action) of %s", FuncKey(router))
+	}
+	hasReq := func(f *ssa.Function) bool {
+		for _, pa := range f.Params {
+			if pt, ok := pa.Type().(*types.Pointer); ok && IsNamed(pt.Elem(), "net/http", "Request") {
+				return true
+			}
+		}
+		return false
+	}
+	inHandlers := func(f *ssa.Function) bool {
+		if f == nil || !InModule(f) {
+			return false
+		}
+		rel := RelPkg(f.Pkg.Pkg)
+		return rel == "pkg/blobserver/handlers" || rel == "pkg/blobserver/gethandler"
+	}
+	impls := func(ctor *ssa.Function) []*ssa.Function {
+		var out []*ssa.Function
+		seen := map[*ssa.Function]bool{}
+		var visit func(f *ssa.Function, depth int)
+		visit = func(f *ssa.Function, depth int) {
+			if f == nil || seen[f] || depth > 3 {
+				return
+			}
+			seen[f] = true
+			if hasReq(f) {
+				out = append(out, f)
+			}
+			for _, a := range f.AnonFuncs {
+				visit(a, depth)
+			}
+			for _, c := range CallsIn(f, false) {
+				if g := c.Callee(); inHandlers(g) && g.Parent() == nil {
+					visit(g, depth+1)
+				}
+			}
+		}
+		visit(ctor, 0)
+		return out
+	}
+	routes := map[string][]*ssa.Function{}
+	for _, b := range router.Blocks {
+		ifi, ok := b.Instrs[len(b.Instrs)-1].(*ssa.If)
+		if !ok {
+			continue
+		}
+		bo, ok := ifi.Cond.(*ssa.BinOp)
+		if !ok || bo.Op != token.EQL {
+			continue
+		}
+		var s string
+		if bo.X == ssa.Value(action) {
+			s, ok = ConstString(bo.Y)
+		} else if bo.Y == ssa.Value(action) {
+			s, ok = ConstString(bo.X)
+		} else {
+			ok = false
+		}
+		if !ok {
+			continue
+		}
+		t := b.Succs[0]
+		for _, bb := range router.Blocks {
+			if bb != t && !(t.Dominates(bb) && len(t.Preds) == 1) {
+				continue
+			}
+			for _, in := range bb.Instrs {
+				cl, ok := in.(*ssa.Call)
+				if !ok {
+					continue
+				}
+				if g := (CallSite{router, cl}).Callee(); inHandlers(g) {
+					for _, h := range impls(g) {
+						dup := false
+						for _, o := range routes[s] {
+							dup = dup || o == h
+						}
+						if !dup {
+							routes[s] = append(routes[s], h)
+						}
+					}
+				}
+			}
+		}
+	}
+	return routes
+}
+
+// --- client side: request text model
+
+type c18GFact struct {
+	CondFact
+	N int // number of value-phis crossed (from the emission outward) when the fact was collected
+}
+
+type c18Frag struct {
+	At      ssa.Instruction // formatting point
+	Text    string
+	Literal bool // Text is literal text, not a format string
+	Args    []ssa.Value
+	Guards  []CondFact        // facts under which the fragment is part of the request (phi edges)
+	Phis    []*ssa.BasicBlock // phis crossed between the fragment and the request
+	Uncond  bool              // part of every request created at the call
+	Buf     *ssa.Alloc        // buffer written to (nil for expression fragments)
+}
+
+type c18Request struct {
+	Fn     *ssa.Function
+	Call   CallSite
+	Action string
+	Frags  []*c18Frag
+	Opaque []string
+}
+
+var c18ActionRE = regexp.MustCompile(`(?:^|/)camli/([a-z][a-z-]*)(?:$|\?)`)
+
+func c18EdgeFacts(pred, blk *ssa.BasicBlock) []CondFact {
+	out := append([]CondFact(nil), FactsAt(pred)...)
+	if ifi, ok := pred.Instrs[len(pred.Instrs)-1].(*ssa.If); ok && len(pred.Succs) == 2 && pred.Succs[0] != pred.Succs[1] {
+		out = append(out, CondFact{ifi.Cond, pred.Succs[0] == blk, pred})
+	}
+	return out
+}
+
+// c18Requests models every HTTP request created in fn for a /camli/<action> URL.
+func c18Requests(fn *ssa.Function) []*c18Request {
+	var out []*c18Request
+	for _, c := range CallsIn(fn, false) {
+		if c.Value() == nil {
+			continue
+		}
+		var urlArg ssa.Value
+		var bodyArgs []ssa.Value
+		args := c.Args()
+		switch {
+		case c.IsStatic("perkeep.org/pkg/client", "Client", "newRequest") && len(args) >= 5:
+			urlArg, bodyArgs = args[3], args[4:]
+		case c.IsStatic("net/http", "", "NewRequest") && len(args) == 3:
+			urlArg, bodyArgs = args[1], args[2:]
+		case c.IsStatic("net/http", "", "NewRequestWithContext") && len(args) == 4:
+			urlArg, bodyArgs = args[2], args[3:]
+		default:
+			continue
+		}
+		action := ""
+		DependsOn(urlArg, func(x ssa.Value) bool {
+			if s, ok := ConstString(x); ok {
+				if m := c18ActionRE.FindStringSubmatch(s); m != nil {
+					action = m[1]
+					return true
+				}
+			}
+			return false
+		})
+		if action == "" {
+			continue
+		}
+		rq := &c18Request{Fn: fn, Call: c, Action: action}
+		rq.walkText(urlArg, nil, nil, true, map[ssa.Value]bool{}, 0)
+		for _, b := range bodyArgs {
+			rq.walkText(b, nil, nil, true, map[ssa.Value]bool{}, 0)
+		}
+		out = append(out, rq)
+	}
+	return out
+}
+
+func (rq *c18Request) opaque(v ssa.Value) {
+	rq.Opaque = append(rq.Opaque, v.Name()+" ("+v.Type().String()+")")
+}
+
+func (rq *c18Request) walkText(v ssa.Value, guards []CondFact, phis []*ssa.BasicBlock, uncond bool, seen map[ssa.Value]bool, depth int) {
+	if v == nil || depth > 24 {
+		return
+	}
+	add := func(f *c18Frag) {
+		f.Guards = append([]CondFact(nil), guards...)
+		f.Phis = append([]*ssa.BasicBlock(nil), phis...)
+		rq.Frags = append(rq.Frags, f)
+	}
+	switch x := v.(type) {
+	case *ssa.Const:
+		if x.Value != nil && x.Value.Kind() == constant.String {
+			add(&c18Frag{At: rq.Call.Instr, Text: constant.StringVal(x.Value), Literal: true, Uncond: uncond})
+		}
+	case *ssa.MakeInterface:
+		rq.walkText(x.X, guards, phis, uncond, seen, depth+1)
+	case *ssa.ChangeType:
+		rq.walkText(x.X, guards, phis, uncond, seen, depth+1)
+	case *ssa.ChangeInterface:
+		rq.walkText(x.X, guards, phis, uncond, seen, depth+1)
+	case *ssa.Convert:
+		rq.walkText(x.X, guards, phis, uncond, seen, depth+1)
+	case *ssa.BinOp:
+		if x.Op != token.ADD {
+			rq.opaque(v)
+			return
+		}
+		n := len(rq.Frags)
+		rq.walkText(x.X, guards, phis, uncond, seen, depth+1)
+		if c18Texty(x.Y) {
+			rq.walkText(x.Y, guards, phis, uncond, seen, depth+1)
+		} else if len(rq.Frags) > n && strings.HasSuffix(rq.Frags[len(rq.Frags)-1].Text, "=") {
+			// "...key=" + value: the value of the last key of the preceding text
+			last := rq.Frags[len(rq.Frags)-1]
+			if last.Literal {
+				last.Literal = false
+				last.Text = strings.ReplaceAll(last.Text, "%", "%%")
+			}
+			last.Text += "%s"
+			last.Args = append(last.Args, x.Y)
+		} else {
+			rq.opaque(x.Y)
+		}
+	case *ssa.Phi:
+		if seen[v] {
+			return
+		}
+		seen[v] = true
+		for i, e := range x.Edges {
+			g := append(append([]CondFact(nil), guards...), c18EdgeFacts(x.Block().Preds[i], x.Block())...)
+			rq.walkText(e, g, append(append([]*ssa.BasicBlock(nil), phis...), x.Block()), false, seen, depth+1)
+		}
+		delete(seen, v)
+	case *ssa.Slice:
+		for _, e := range c18VarargElems(x) {
+			rq.walkText(e, guards, phis, uncond, seen, depth+1)
+		}
+	case *ssa.UnOp:
+		if x.Op == token.MUL {
+			if o := originValue(x); o != ssa.Value(x) {
+				rq.walkText(o, guards, phis, uncond, seen, depth+1)
+				return
+			}
+		}
+		rq.opaque(v)
+	case *ssa.Alloc:
+		if pt, ok := x.Type().(*types.Pointer); ok && (IsNamed(pt.Elem(), "bytes", "Buffer") || IsNamed(pt.Elem(), "strings", "Builder")) {
+			rq.bufferWrites(x, guards, phis, uncond)
+			return
+		}
+		rq.opaque(v)
+	case *ssa.Call:
+		cs := CallSite{x.Parent(), x}
+		switch {
+		case cs.IsStatic("fmt", "", "Sprintf"):
+			if f, ok := ConstString(x.Call.Args[0]); ok {
+				add(&c18Frag{At: x, Text: f, Args: c18VarargElems(x.Call.Args[1]), Uncond: uncond})
+				return
+			}
+			rq.opaque(v)
+		case cs.IsStatic("strings", "", "NewReader"), cs.IsStatic("bytes", "", "NewReader"), cs.IsStatic("bytes", "", "NewBufferString"), cs.IsStatic("bytes", "", "NewBuffer"),
+			cs.IsStatic("bytes", "Buffer", "String"), cs.IsStatic("strings", "Builder", "String"), cs.IsStatic("bytes", "Buffer", "Bytes"):
+			rq.walkText(x.Call.Args[0], guards, phis, uncond, seen, depth+1)
+		case cs.IsStatic("net/url", "Values", "Encode"):
+			rq.valuesWrites(x.Call.Args[0], guards, phis, uncond)
+		default:
+			rq.opaque(v)
+		}
+	default:
+		rq.opaque(v)
+	}
+}
+
+// c18Texty: v is a shape walkText models as request text (rather than as the
+// value following a trailing "key=").
+func c18Texty(v ssa.Value) bool {
+	switch x := v.(type) {
+	case *ssa.Const:
+		return true
+	case *ssa.BinOp:
+		return x.Op == token.ADD
+	case *ssa.Phi:
+		for _, e := range x.Edges {
+			if c18Texty(e) {
+				return true
+			}
+		}
+	case *ssa.Call:
+		cs := CallSite{x.Parent(), x}
+		return cs.IsStatic("fmt", "", "Sprintf") || cs.IsStatic("net/url", "Values", "Encode")
+	}
+	return false
+}
+
+func (rq *c18Request) bufferWrites(buf *ssa.Alloc, guards []CondFact, phis []*ssa.BasicBlock, uncond bool) {
+	isBuf := func(v ssa.Value) bool {
+		for i := 0; i < 4; i++ {
+			switch x := v.(type) {
+			case *ssa.MakeInterface:
+				v = x.X
+				continue
+			case *ssa.ChangeInterface:
+				v = x.X
+				continue
+			}
+			break
+		}
+		return v == ssa.Value(buf)
+	}
+	n := 0
+	for _, c := range CallsIn(rq.Fn, false) {
+		cl := c.Value()
+		if cl == nil {
+			continue
+		}
+		args := c.Args()
+		var f *c18Frag
+		switch {
+		case c.IsStatic("fmt", "", "Fprintf") && len(args) == 3 && isBuf(args[0]):
+			if s, ok := ConstString(args[1]); ok {
+				f = &c18Frag{At: cl, Text: s, Args: c18VarargElems(args[2])}
+			}
+		case (c.IsStatic("bytes", "Buffer", "WriteString") || c.IsStatic("strings", "Builder", "WriteString") || c.IsStatic("io", "", "WriteString")) && len(args) == 2 && isBuf(args[0]):
+			if s, ok := ConstString(args[1]); ok {
+				f = &c18Frag{At: cl, Text: s, Literal: true}
+			} else if sp, ok := originValue(args[1]).(*ssa.Call); ok && (CallSite{rq.Fn, sp}).IsStatic("fmt", "", "Sprintf") {
+				if s, ok := ConstString(sp.Call.Args[0]); ok {
+					f = &c18Frag{At: cl, Text: s, Args: c18VarargElems(sp.Call.Args[1])}
+				}
+			}
+		default:
+			continue
+		}
+		if f == nil {
+			rq.Opaque = append(rq.Opaque, "write to "+buf.Name()+" with non-constant text")
+			continue
+		}
+		f.Buf = buf
+		f.Uncond = uncond && Precedes(cl, rq.Call.Instr)
+		f.Guards = append([]CondFact(nil), guards...)
+		f.Phis = append([]*ssa.BasicBlock(nil), phis...)
+		rq.Frags = append(rq.Frags, f)
+		n++
+	}
+	if n == 0 {
+		rq.Opaque = append(rq.Opaque, "buffer "+buf.Name()+" without modelled writes")
+	}
+}
+
+func (rq *c18Request) valuesWrites(m ssa.Value, guards []CondFact, phis []*ssa.BasicBlock, uncond bool) {
+	mo := originValue(m)
+	if _, ok := mo.(*ssa.MakeMap); !ok {
+		rq.opaque(m)
+		return
+	}
+	for _, c := range CallsIn(rq.Fn, false) {
+		cl := c.Value()
+		if cl == nil || !(c.IsStatic("net/url", "Values", "Add") || c.IsStatic("net/url", "Values", "Set")) {
+			continue
+		}
+		args := c.Args()
+		if len(args) != 3 || originValue(args[0]) != mo {
+			continue
+		}
+		f := &c18Frag{At: cl, Uncond: uncond && Precedes(cl, rq.Call.Instr)}
+		if s, ok := ConstString(args[1]); ok {
+			f.Text, f.Args = strings.ReplaceAll(s, "%", "%%")+"=%s", []ssa.Value{args[2]}
+		} else if sp, ok := originValue(args[1]).(*ssa.Call); ok && (CallSite{rq.Fn, sp}).IsStatic("fmt", "", "Sprintf") {
+			s, ok := ConstString(sp.Call.Args[0])
+			if !ok {
+				rq.opaque(args[1])
+				continue
+			}
+			f.Text, f.Args = s+"=%s", append(c18VarargElems(sp.Call.Args[1]), args[2])
+		} else {
+			rq.opaque(args[1])
+			continue
+		}
+		f.Guards = append([]CondFact(nil), guards...)
+		f.Phis = append([]*ssa.BasicBlock(nil), phis...)
+		rq.Frags = append(rq.Frags, f)
+	}
+}
+
+type c18Emit struct {
+	Key      string
+	Numbered bool
+	Frag     *c18Frag
+	IsConst  bool
+	ConstVal string
+	Val      ssa.Value // nil: unknown value
+}
+
+var c18EmitRE = regexp.MustCompile(`(?:^|[?&])([A-Za-z]+[0-9]*)(%[dv])?=([^&]*)`)
+var c18VerbRE = regexp.MustCompile(`%[a-zA-Z]`)
+
+// Emits lists the key=value emissions of the request.
+func (rq *c18Request) Emits() []*c18Emit {
+	var out []*c18Emit
+	for _, f := range rq.Frags {
+		text := f.Text
+		if !f.Literal {
+			text = strings.ReplaceAll(text, "%%", "\x00\x00")
+		}
+		q := text
+		off := 0
+		if i := strings.Index(q, "?"); i >= 0 {
+			q, off = q[i:], i
+		}
+		for _, m := range c18EmitRE.FindAllStringSubmatchIndex(q, -1) {
+			e := &c18Emit{Key: q[m[2]:m[3]], Numbered: m[4] >= 0, Frag: f}
+			vt := q[m[6]:m[7]]
+			switch {
+			case f.Literal:
+				if m[7] == len(q) && vt == "" {
+					// the literal ends with "key=": the value is whatever follows, not modelled
+				} else {
+					e.IsConst, e.ConstVal = true, vt
+				}
+			case !strings.Contains(vt, "%"):
+				e.IsConst, e.ConstVal = true, strings.ReplaceAll(vt, "\x00\x00", "%")
+			case c18VerbRE.MatchString(vt) && len(vt) == 2:
+				idx := 0
+				for _, vb := range c18VerbRE.FindAllStringIndex(text, -1) {
+					if vb[0] < off+m[6] {
+						idx++
+					}
+				}
+				if idx < len(f.Args) {
+					e.Val = f.Args[idx]
+				}
+			}
+			out = append(out, e)
+		}
+	}
+	return out
+}
+
+type c18ChainVal struct {
+	V ssa.Value
+	N int // value-phis crossed before reaching V
+}
+
+type c18Leaf struct {
+	Atom   c18Atom
+	Emit   *c18Emit
+	Guards []c18GFact
+	Phis   []*ssa.BasicBlock // value-phis crossed, outward from the emission
+	Chain  []c18ChainVal     // values that satisfy the atom iff the leaf does
+	What   string
+	Mem    bool // the leaf is a memory load the analysis cannot follow
+}
+
+func c18IsNumeric(t types.Type) bool {
+	b, ok := t.Underlying().(*types.Basic)
+	return ok && b.Info()&(types.IsInteger|types.IsFloat|types.IsBoolean) != 0
+}
+
+func c18ConstSatisfies(c *ssa.Const, kind int) bool {
+	if c.Value == nil {
+		return false
+	}
+	switch c.Value.Kind() {
+	case constant.String:
+		s := constant.StringVal(c.Value)
+		return c18TextSatisfies(s, kind)
+	case constant.Int:
+		if kind == c18NonEmpty {
+			return true
+		}
+		n := c.Int64()
+		if kind == c18IntNonZero {
+			return n != 0
+		}
+		return n > 0
+	}
+	return kind == c18NonEmpty
+}
+
+func c18TextSatisfies(s string, kind int) bool {
+	if kind == c18NonEmpty {
+		return s != ""
+	}
+	n, neg, digits := int64(0), false, 0
+	for i, r := range s {
+		switch {
+		case i == 0 && (r == '-' || r == '+'):
+			neg = r == '-'
+		case r >= '0' && r <= '9':
+			digits++
+			if n < 1<<40 {
+				n = n*10 + int64(r-'0')
+			}
+		default:
+			return false // does not parse: the handler sees 0
+		}
+	}
+	if digits == 0 || n == 0 {
+		return false
+	}
+	return kind == c18IntNonZero || !neg
+}
+
+func c18EmptinessPreserving(cl *ssa.Call) bool {
+	cs := CallSite{cl.Parent(), cl}
+	return cs.IsStatic("net/url", "", "QueryEscape") || cs.IsStatic("net/url", "", "PathEscape")
+}
+
+// c18Leaves: the ways emission e may satisfy the positive atom of kind `kind`.
+func c18Leaves(p *Program, e *c18Emit, atom c18Atom) []*c18Leaf {
+	var base []c18GFact
+	for _, f := range FactsAt(e.Frag.At.Block()) {
+		base = append(base, c18GFact{f, 0})
+	}
+	for _, f := range e.Frag.Guards {
+		base = append(base, c18GFact{f, 0})
+	}
+	mk := func(g []c18GFact, phis []*ssa.BasicBlock, chain []c18ChainVal, what string) *c18Leaf {
+		return &c18Leaf{Atom: atom, Emit: e, Guards: g, Phis: phis, Chain: chain, What: what}
+	}
+	if e.IsConst {
+		if c18TextSatisfies(e.ConstVal, atom.Kind) {
+			return []*c18Leaf{mk(base, nil, nil, fmt.Sprintf("the constant %q", e.ConstVal))}
+		}
+		return nil
+	}
+	if e.Val == nil {
+		return []*c18Leaf{mk(base, nil, nil, "a value the model does not follow")}
+	}
+	var out []*c18Leaf
+	seen := map[ssa.Value]bool{}
+	var walk func(v ssa.Value, g []c18GFact, phis []*ssa.BasicBlock, chain []c18ChainVal, depth int)
+	walk = func(v ssa.Value, g []c18GFact, phis []*ssa.BasicBlock, chain []c18ChainVal, depth int) {
+		for {
+			if mi, ok := v.(*ssa.MakeInterface); ok {
+				v = mi.X
+			} else if ct, ok := v.(*ssa.ChangeType); ok {
+				v = ct.X
+			} else {
+				break
+			}
+		}
+		describe := func() string {
+			if in, ok := v.(ssa.Instruction); ok && in.Pos().IsValid() {
+				return fmt.Sprintf("the value computed at line %d", p.Fset.Position(in.Pos()).Line)
+			}
+			return "the value " + v.Name()
+		}
+		if c, ok := v.(*ssa.Const); ok {
+			if c18ConstSatisfies(c, atom.Kind) {
+				out = append(out, mk(g, phis, nil, "the constant "+c.Name()))
+			}
+			return
+		}
+		if atom.Kind == c18NonEmpty && c18IsNumeric(v.Type()) {
+			out = append(out, mk(g, phis, nil, "a formatted number (never empty)"))
+			return
+		}
+		chain = append(append([]c18ChainVal(nil), chain...), c18ChainVal{v, len(phis)})
+		if depth > 16 {
+			out = append(out, mk(g, phis, chain, describe()))
+			return
+		}
+		switch x := v.(type) {
+		case *ssa.Phi:
+			if seen[v] {
+				return
+			}
+			seen[v] = true // on the current path only: cuts cycles, keeps every acyclic way into the phi
+			for i, ed := range x.Edges {
+				np := append(append([]*ssa.BasicBlock(nil), phis...), x.Block())
+				ng := append([]c18GFact(nil), g...)
+				for _, f := range c18EdgeFacts(x.Block().Preds[i], x.Block()) {
+					ng = append(ng, c18GFact{f, len(np)})
+				}
+				walk(ed, ng, np, chain, depth+1)
+			}
+			delete(seen, v)
+			return
+		case *ssa.Convert:
+			if atom.Kind != c18NonEmpty {
+				sb, ok1 := x.X.Type().Underlying().(*types.Basic)
+				db, ok2 := x.Type().Underlying().(*types.Basic)
+				if ok1 && ok2 && sb.Info()&types.IsInteger != 0 && db.Info()&types.IsInteger != 0 {
+					walk(x.X, g, phis, chain, depth+1)
+					return
+				}
+			}
+		case *ssa.Call:
+			if atom.Kind == c18NonEmpty && c18EmptinessPreserving(x) {
+				walk(x.Call.Args[0], g, phis, chain, depth+1)
+				return
+			}
+		case *ssa.UnOp:
+			if x.Op == token.MUL {
+				if o := originValue(x); o != ssa.Value(x) {
+					walk(o, g, phis, chain, depth+1)
+					return
+				}
+				l := mk(g, phis, chain, describe())
+				// a load of a plain variable cell with several stores (captured
+				// variable): facts about one load say nothing about another
+				_, l.Mem = varOf(x.X)
+				out = append(out, l)
+				return
+			}
+		}
+		out = append(out, mk(g, phis, chain, describe()))
+	}
+	walk(e.Val, base, nil, nil, 0)
+	return out
+}
+
+// c18Definitely: emission e satisfies kind in every request it is part of.
+func c18Definitely(e *c18Emit, kind int) bool {
+	if e.IsConst {
+		return c18TextSatisfies(e.ConstVal, kind)
+	}
+	if e.Val == nil {
+		return false
+	}
+	seen := map[ssa.Value]bool{}
+	var def func(v ssa.Value, depth int) bool
+	def = func(v ssa.Value, depth int) bool {
+		if depth > 16 {
+			return false
+		}
+		switch x := v.(type) {
+		case *ssa.MakeInterface:
+			return def(x.X, depth+1)
+		case *ssa.ChangeType:
+			return def(x.X, depth+1)
+		case *ssa.Const:
+			return c18ConstSatisfies(x, kind)
+		case *ssa.Phi:
+			if seen[v] {
+				return true
+			}
+			seen[v] = true
+			for _, ed := range x.Edges {
+				if !def(ed, depth+1) {
+					return false
+				}
+			}
+			return true
+		case *ssa.Call:
+			if kind == c18NonEmpty && c18EmptinessPreserving(x) {
+				return def(x.Call.Args[0], depth+1)
+			}
+		}
+		return kind == c18NonEmpty && c18IsNumeric(v.Type())
+	}
+	return def(e.Val, 0)
+}
+
+// c18FactDenies: fact f says that value x does not satisfy kind.
+func c18FactDenies(f CondFact, x ssa.Value, kind int) bool {
+	v, k, pos, _, ok := c18CmpZero(f.Cond, f.Val)
+	if !ok || pos {
+		return false
+	}
+	for {
+		if ct, isCT := v.(*ssa.ChangeType); isCT {
+			v = ct.X
+			continue
+		}
+		break
+	}
+	if v != x {
+		return false
+	}
+	// ¬k(x) denies kind when kind implies k
+	return kind >= k
+}
+
+// c18SameIncarnation: a fact about (or the identity of) value x, established
+// before crossing the given phis on the way to the request, still speaks about
+// the x that is current when the request is created: every crossed phi lies
+// strictly below x's defining block, and so does the request.
+func c18SameIncarnation(x ssa.Value, req ssa.Instruction, bufs []*ssa.Alloc, phiSets ...[]*ssa.BasicBlock) bool {
+	in, ok := x.(ssa.Instruction)
+	if !ok {
+		return true // parameters, free variables, constants: one incarnation per call
+	}
+	d := in.Block()
+	if d == nil || in.Parent() != req.Parent() {
+		return false
+	}
+	for _, ps := range phiSets {
+		for _, b := range ps {
+			if b == d || !d.Dominates(b) {
+				return false
+			}
+		}
+	}
+	for _, b := range bufs {
+		if b != nil && b.Block() != d && !d.Dominates(b.Block()) {
+			return false
+		}
+	}
+	return d == req.Block() || d.Dominates(req.Block())
+}
+
+// c18Exclusive: leaves la and lb cannot both be realised in one request.
+func c18Exclusive(la, lb *c18Leaf, req ssa.Instruction) (bool, string) {
+	bufs := []*ssa.Alloc{la.Emit.Frag.Buf, lb.Emit.Frag.Buf}
+	try := func(a, b *c18Leaf) (bool, string) {
+		for _, f := range a.Guards {
+			for _, cv := range b.Chain {
+				if !c18FactDenies(f.CondFact, cv.V, b.Atom.Kind) {
+					continue
+				}
+				if c18SameIncarnation(cv.V, req, bufs, a.Phis[:f.N], a.Emit.Frag.Phis, b.Phis[:cv.N], b.Emit.Frag.Phis) {
+					return true, fmt.Sprintf("'%s' can satisfy %s only where a dominating guard says the value sent for '%s' in the same request does not satisfy %s", a.Emit.Key, a.Atom, b.Emit.Key, b.Atom)
+				}
+			}
+		}
+		return false, ""
+	}
+	if ok, why := try(la, lb); ok {
+		return true, why
+	}
+	if ok, why := try(lb, la); ok {
+		return true, why
+	}
+	for _, f := range la.Guards {
+		for _, g := range lb.Guards {
+			if f.Cond == g.Cond && f.Val != g.Val &&
+				c18SameIncarnation(f.Cond, req, bufs, la.Phis[:f.N], la.Emit.Frag.Phis, lb.Phis[:g.N], lb.Emit.Frag.Phis) {
+				return true, fmt.Sprintf("'%s' and '%s' are emitted on opposite edges of one condition", la.Emit.Key, lb.Emit.Key)
+			}
+		}
+	}
+	return false, ""
+}
+
+func c18Compat(p *Program, r *Reporter) {
+	routes := c18Routes(p)
+	type conj struct {
+		action string
+		rej    c18Rejection
+	}
+	var conjs []conj
+	var actions []string
+	for a := range routes {
+		actions = append(actions, a)
+	}
+	sort.Strings(actions)
+	nSites, nLits, nHandlers := 0, 0, 0
+	for _, a := range actions {
+		for _, h := range routes[a] {
+			nHandlers++
+			rs, sites, lits := c18Rejections(h)
+			nSites += sites
+			nLits += lits
+			for _, rj := range rs {
+				conjs = append(conjs, conj{a, rj})
+			}
+		}
+	}
+	var reqs []*c18Request
+	for _, fn := range p.FuncsIn("pkg/client") {
+		reqs = append(reqs, c18Requests(fn)...)
+	}
+	r.Analysed("routed_handler_functions", nHandlers)
+	r.Analysed("error_response_sites", nSites)
+	r.Analysed("request_key_literals", nLits)
+	r.Analysed("key_only_rejection_conjunctions", len(conjs))
+	r.Analysed("client_protocol_requests", len(reqs))
+	for _, cj := range conjs {
+		atoms := cj.rej.Atoms
+		var rejSites []string
+		for _, in := range cj.rej.Sites {
+			rejSites = append(rejSites, p.Pos(in.Pos()))
+		}
+		rejSite := strings.Join(rejSites, ", ")
+		for _, rq := range reqs {
+			if rq.Action != cj.action {
+				continue
+			}
+			key := fmt.Sprintf("%s#%s-never[%s]", FuncKey(rq.Fn), cj.action, c18AtomsString(atoms))
+			site := p.Pos(rq.Call.Pos())
+			emits := rq.Emits()
+			leaves := make([][]*c18Leaf, len(atoms))
+			never, neverWhy := false, ""
+			for i, a := range atoms {
+				var es []*c18Emit
+				for _, e := range emits {
+					if e.Key == a.Key && !e.Numbered {
+						es = append(es, e)
+					}
+				}
+				if a.Pos {
+					for _, e := range es {
+						leaves[i] = append(leaves[i], c18Leaves(p, e, a)...)
+					}
+					if len(leaves[i]) == 0 && len(rq.Opaque) == 0 {
+						never = true
+						if len(es) == 0 {
+							neverWhy = fmt.Sprintf("the request never carries '%s'", a.Key)
+						} else {
+							neverWhy = fmt.Sprintf("every value the request carries for '%s' fails %s", a.Key, a)
+						}
+					} else if len(leaves[i]) == 0 {
+						leaves[i] = []*c18Leaf{{Atom: a, Emit: &c18Emit{Key: a.Key, Frag: &c18Frag{At: rq.Call.Instr}}, What: "a part of the request the model does not follow (" + strings.Join(rq.Opaque, "; ") + ")"}}
+					}
+				} else {
+					for _, e := range es {
+						if e.Frag.Uncond && len(e.Frag.Phis) == 0 && c18Definitely(e, a.Kind) {
+							never = true
+							neverWhy = fmt.Sprintf("every request carries '%s' with a value for which %s is false", a.Key, a)
+						}
+					}
+				}
+			}
+			if never {
+				r.OK("N-compat", key, site, fmt.Sprintf("the %s handler rejects requests with %s (%s); %s", cj.action, c18AtomsString(atoms), rejSite, neverWhy))
+				continue
+			}
+			excl, exclWhy := false, ""
+			var witness [2]*c18Leaf
+			for i := 0; i < len(atoms) && !excl; i++ {
+				for j := i + 1; j < len(atoms) && !excl; j++ {
+					if !atoms[i].Pos || !atoms[j].Pos {
+						continue
+					}
+					all, why := true, ""
+					for _, la := range leaves[i] {
+						for _, lb := range leaves[j] {
+							ok, w := c18Exclusive(la, lb, rq.Call.Instr)
+							if !ok {
+								all = false
+								if witness[0] == nil {
+									witness = [2]*c18Leaf{la, lb}
+								}
+							} else {
+								why = w
+							}
+						}
+					}
+					if all && len(leaves[i]) > 0 && len(leaves[j]) > 0 {
+						excl, exclWhy = true, why
+					}
+				}
+			}
+			if excl {
+				r.OK("N-compat", key, site, fmt.Sprintf("the %s handler rejects requests with %s (%s); in every request built here %s (checked on every pair of possible values, for the iteration that is formatted)", cj.action, c18AtomsString(atoms), rejSite, exclWhy))
+				continue
+			}
+			mem := false
+			var parts []string
+			for i, a := range atoms {
+				if !a.Pos {
+					parts = append(parts, fmt.Sprintf("%s is not excluded (no unconditional emission of '%s' with a value that makes it false)", a, a.Key))
+					continue
+				}
+				for _, l := range leaves[i] {
+					mem = mem || l.Mem
+				}
+			}
+			if witness[0] != nil {
+				parts = append(parts, fmt.Sprintf("'%s' may be sent as %s together with '%s' as %s, and no guard dominating either emission (and evaluated for the same iteration's values) excludes the other", witness[0].Emit.Key, witness[0].What, witness[1].Emit.Key, witness[1].What))
+			}
+			detail := fmt.Sprintf("the %s handler answers a request with %s by an error response (%s), and this request builder can produce such a request: %s", cj.action, c18AtomsString(atoms), rejSite, strings.Join(parts, "; "))
+			if mem {
+				r.Undecided("N-compat", key, site, detail+" [a value involved lives in a variable the analysis cannot follow]")
+			} else if len(rq.Opaque) > 0 {
+				r.Undecided("N-compat", key, site, detail+" [parts of the request text are built in a way the model does not follow: "+strings.Join(rq.Opaque, "; ")+"]")
+			} else {
+				r.Violation("N-compat", key, site, detail)
+			}
+		}
+	}
+	r.Floor("N-compat", 3)
 }
